@@ -233,29 +233,36 @@ fn check_expr(e: &Ex, cn: &mut Cn) -> Option<(String, String)> {
     for (i, v) in vars.iter().enumerate() {
         idx[*v] = i;
     }
-    let le = e.to_logical(&idx);
-    for order in permutations(n) {
-        let b = small_builder(&order, 4);
-        match guarded(|| b.compile_logical_expr(&le)) {
-            Ok(r) => {
-                cn.bdd_compiles += 1;
-                if bdd_tt(r, n) != f {
-                    return Some(("bdd-expr".into(), format!("order {:?}: compiles to {:#x}, the expression denotes {:#x}", order, bdd_tt(r, n), f)));
-                }
-            }
-            Err(p) => return Some(("bdd-expr-panic".into(), format!("compile_logical_expr panicked: {}", p))),
-        }
+    // two renderings of the same text: negated variables as negative literals, and every Not
+    // kept as a Not node (stacked negations included)
+    let mut les = vec![("literal form", e.to_logical(&idx))];
+    if e.has_negated_var() {
+        les.push(("plain form", e.to_logical_plain(&idx)));
     }
-    for vt in all_vtrees(n) {
-        let b = sdd_builder(&vt, 4);
-        match guarded(|| b.compile_logical_expr(&le)) {
-            Ok(r) => {
-                cn.sdd_compiles += 1;
-                if sdd_tt(r, n) != f {
-                    return Some(("sdd-expr".into(), format!("vtree {}: compiles to {:#x}, the expression denotes {:#x}", vt.show(), sdd_tt(r, n), f)));
+    for (form, le) in les.iter() {
+        for order in permutations(n) {
+            let b = small_builder(&order, 4);
+            match guarded(|| b.compile_logical_expr(le)) {
+                Ok(r) => {
+                    cn.bdd_compiles += 1;
+                    if bdd_tt(r, n) != f {
+                        return Some(("bdd-expr".into(), format!("{}, order {:?}: compiles to {:#x}, the expression denotes {:#x}", form, order, bdd_tt(r, n), f)));
+                    }
                 }
+                Err(p) => return Some(("bdd-expr-panic".into(), format!("compile_logical_expr panicked: {}", p))),
             }
-            Err(p) => return Some(("sdd-expr-panic".into(), format!("compile_logical_expr panicked: {}", p))),
+        }
+        for vt in all_vtrees(n) {
+            let b = sdd_builder(&vt, 4);
+            match guarded(|| b.compile_logical_expr(le)) {
+                Ok(r) => {
+                    cn.sdd_compiles += 1;
+                    if sdd_tt(r, n) != f {
+                        return Some(("sdd-expr".into(), format!("{}, vtree {}: compiles to {:#x}, the expression denotes {:#x}", form, vt.show(), sdd_tt(r, n), f)));
+                    }
+                }
+                Err(p) => return Some(("sdd-expr-panic".into(), format!("compile_logical_expr panicked: {}", p))),
+            }
         }
     }
     None
@@ -491,7 +498,7 @@ pub fn run(ctx: &Ctx) -> Report {
         rep.merge(fam);
     }
     // expressions
-    let k = ctx.tier.pick(2, 3);
+    let k = 3;
     let mut ex = exprs_up_to(k, 3);
     ctx.rotate(&mut ex);
     let chunks: Vec<&[Ex]> = ex.chunks(256).collect();
